@@ -10,7 +10,7 @@ import netgen as NG
 RULE = ("the same hydraulic set-up (same generator seed: topology, capacities, hydraulic parameters, hydrological forcing) is "
         "built under 2-3 different pollutant configurations (different pollutant lists and orders, concentrations, loads, "
         "treatment parameters incl. library defaults vs declared; in a third of the cases with hydraulic parameters changed through "
-        "apply_overrides after construction, identically in all configurations) and run in exact arithmetic; every arc flow volume and every store volume of every timestep "
+        "apply_overrides after construction, identically in all configurations; every third set-up with travel-time / decaying / one-way arc classes) and run in exact arithmetic; every arc flow volume and every store volume of every timestep "
         "must be identical. non-trivial = distinct model with >= 4 nodes")
 SETS = ["simple", "four", "reordered", "one"]
 
@@ -19,7 +19,8 @@ def paired(rep, thorough):
     n = 400 if thorough else 50
     viol = 0
     compared = 0
-    for seed, size in net_check.gen_cases("net_C20_pairs", n, 4):
+    mixed = 0
+    for idx, (seed, size) in enumerate(net_check.gen_cases("net_C20_pairs", n, 4)):
         r0 = random.Random(seed)
         sets = r0.sample(SETS, 3 if thorough else 2)
         base = None
@@ -27,7 +28,11 @@ def paired(rep, thorough):
         strip = r0.random() < 0.4
         nodecay = r0.random() < 0.4
         for k, ps in enumerate(sets):
-            cfg = NG.gen_model(random.Random(seed), ndates=4, polset=ps, size=size, opts={"polseed": k, "overrides": with_ov})
+            # (every third set-up with travel-time, decaying, one-way, sewer and weir arcs: the same classes and travel times
+            # under every pollutant configuration; what differs is what the water carries, e.g. on a dry day)
+            cfg = NG.gen_model(random.Random(seed), ndates=5 if idx % 3 == 2 else 4, polset=ps, size=size,
+                               opts={"polseed": k, "overrides": with_ov, "arc_mix": 0.5 if idx % 3 == 2 else 0})
+            mixed += int(idx % 3 == 2 and k == 0)
             if strip and k == 1:
                 # "different treatment parameters": this configuration leaves the pollutant treatment of every works to the
                 # library defaults (the hydraulic shares percent_solids and liquor volume stay as declared)
@@ -61,7 +66,7 @@ def paired(rep, thorough):
                                   {"seed": seed, "size": size, "polsets": [base[0], ps],
                                    "config_a": NG.cfg_json(base[2]), "config_b": NG.cfg_json(cfg)}, True)
         rep.add_eval(("pairs", seed), nontrivial=True)
-    rep.monitor["C20_paired_runs"] = {"hydraulic_setups": n, "comparisons": compared, "violations": viol}
+    rep.monitor["C20_paired_runs"] = {"hydraulic_setups": n, "with_mixed_arc_classes": mixed, "comparisons": compared, "violations": viol}
     float_pairs(rep, thorough)
     return {}
 
